@@ -93,7 +93,7 @@ struct VData : Profile {
     std::vector<std::string> required_probes() const override
     {
         return {"append", "overwrite", "overwrite+append", "subset-read", "no-interlace-buffer", "reattach", "restart",
-                "two-readers", "read-without-seek", "fpack", "stored-no-interlace"};
+                "two-readers", "read-without-seek", "fpack", "stored-no-interlace", "field-names-at-the-limit"};
     }
 
     Plan generate(Rng &rng, bool thorough, uint64_t) override
@@ -103,6 +103,7 @@ struct VData : Profile {
         Rng kr             = rng.sub(1);
         p.knobs["clients"] = kr.range(1, MAXCLIENT);
         p.knobs["ndds"]    = kr.chance(0.5) ? kr.range(2, 8) : 16;
+        p.knobs["longnames"] = kr.chance(0.25) ? 1 : 0; // field names of 124..128 characters
         if (kr.chance(0.6))
             p.knobs["vsbuf"] = kr.chance(0.5) ? kr.range(8, 64) : kr.range(65, 600); // internal transfer buffer (hook)
         if (kr.chance(0.4)) {
@@ -179,7 +180,13 @@ struct VData : Profile {
     const std::string path = "/sim/vd.hdf";
 
     // every field name is a proper prefix of the next one: a lookup that compares a prefix only picks the wrong field
-    static std::string fname(int j) { return "f" + std::string("wxyz").substr(0, (size_t)j); }
+    // (with knob longnames the names are 124..128 characters long: 128 is the longest name a field may have)
+    static bool &longnames()
+    {
+        static bool v = false;
+        return v;
+    }
+    static std::string fname(int j) { return (longnames() ? std::string(123, 'n') : std::string()) + "f" + std::string("wxyz").substr(0, (size_t)j); }
     static std::string allfields(const MTable &t)
     {
         std::string s;
@@ -286,7 +293,7 @@ struct VData : Profile {
     {
         MTable &t = s.t[v];
         int32   n = 0, il = 0, sz = 0;
-        char    flds[512] = "", nm[128] = "";
+        char    flds[1024] = "", nm[128] = "";
         if (VSinquire(vkey, &n, &il, flds, &sz, nm) == FAIL)
             s.ctx.fail("inquire-failed", "inquire-failed", strf("VSinquire(vd%d) failed (%s)", v, when));
         s.ctx.st.checks++;
@@ -318,6 +325,9 @@ struct VData : Profile {
         int         ncl  = (int)std::min<int64_t>(MAXCLIENT, std::max<int64_t>(1, p.knob("clients", 1)));
         int         ndds = (int)p.knob("ndds", 16);
         apply_hook_knobs(p);
+        longnames() = p.knob("longnames", 0) != 0;
+        if (longnames())
+            ctx.probe("field-names-at-the-limit");
         for (size_t i = 0; i < p.ops.size(); i++) {
             const Op &o = p.ops[i];
             ctx.begin_op((int)i);
